@@ -32,6 +32,7 @@ SHIM_ASSUMPTIONS = {
     'bigrat.rs': 'A-bigrat: num-rational implements exact rational arithmetic; /, % and new panic on a zero divisor; numer/denom reduced with positive denominator',
     'bigrat_ops.rs': 'A-bigrat (operators)',
     'btree.rs': 'A-btree: std BTreeMap/BTreeSet are finite maps iterated in strictly increasing key order',
+    'btree_iter.rs': 'A-btree (iterator type name)',
     'iter.rs': 'A-iter: iterator adapters act element-wise in order',
     'string.rs': 'A-str: byte-level meaning of str/String/char functions',
     'stream.rs': 'A-stream: Peekable<Chars> yields the chars of the input in order, then None',
